@@ -417,6 +417,45 @@ func TestVerifC09Thresholds(t *testing.T) {
 					}
 				}
 			}
+			// ---- joining a topic that has fanout state: a fanout member may sit in [publish threshold, 0); it is
+			// still never grafted (observed right after Join, before any heartbeat can prune it again)
+			if !c.Violated() {
+				w.handle("f").Publish(context.Background(), []byte("fan-2"))
+				vSettle(10 * time.Millisecond)
+				sF := nd.Snap()
+				marks := map[*gsPup]int{}
+				negFan := 0
+				for _, gp := range pups {
+					marks[gp] = gp.p.WireLen()
+					if _, in := sF.Fanout["f"][gp.p.ID()]; in && sc(gp) < 0 {
+						negFan++
+					}
+				}
+				if _, err := w.handle("f").Subscribe(); err == nil {
+					vSettle(20 * time.Millisecond)
+					s3 := nd.Snap()
+					for _, gp := range pups {
+						if sc(gp) >= 0 {
+							continue
+						}
+						if _, in := s3.Mesh["f"][gp.p.ID()]; in {
+							fail(map[string]string{"kind": "negative_score_grafted", "on": "join_from_fanout"}, gp, "negatively scored peer is in the mesh right after Join (it was a fanout peer: %v)", func() bool { _, f := sF.Fanout["f"][gp.p.ID()]; return f }())
+						}
+						for _, wr := range gp.p.WireSince(marks[gp]) {
+							for _, g := range wr.RPC.GetControl().GetGraft() {
+								if g.GetTopicID() == "f" {
+									fail(map[string]string{"kind": "negative_score_grafted", "on": "join_from_fanout_wire"}, gp, "GRAFT sent to a negatively scored peer on Join")
+								}
+							}
+						}
+					}
+					if negFan > 0 {
+						classes["join/negative_fanout_member"]++
+					} else {
+						classes["join/no_negative_fanout_member"]++
+					}
+				}
+			}
 			for k, v := range classes {
 				c.Count("class:"+k, v)
 			}
@@ -477,6 +516,12 @@ func TestVerifC09Gater(t *testing.T) {
 			w.handle("t").Publish(context.Background(), []byte("cached-0"))
 			vSettle(10 * time.Millisecond)
 			bad := w.pups[0]
+			// half of the cases: the peer with the bad statistics is a direct peer, which the gater must never touch
+			badDirect := c.Chance(0.5)
+			if badDirect {
+				nd.ps.AddDirectPeer(peer.AddrInfo{ID: bad.p.ID()})
+				bad.direct = true
+			}
 			// 1. give the bad peer reject statistics (invalid signatures)
 			for i := 0; i < c.Range(2, 6); i++ {
 				m := vSignedMsg(bad.p.key, "t", vSeqno(uint64(1000+i)), []byte(fmt.Sprintf("forged-%d", i)))
@@ -523,6 +568,17 @@ func TestVerifC09Gater(t *testing.T) {
 						validated = true // it did enter the pipeline's front door
 					}
 				}
+				if badDirect {
+					if was {
+						c.Violatef(map[string]string{"kind": "direct_peer_throttled"}, "an RPC of a direct peer was throttled by the gater")
+					}
+					// its payload must get to the validation pipeline's front door whatever the gater thinks
+					if !validated {
+						c.Violatef(map[string]string{"kind": "direct_peer_payload_dropped"}, "payload %s of a direct peer never reached validation while the gater was active", data)
+					}
+					full++
+					continue
+				}
 				if !was {
 					full++
 					continue
@@ -556,8 +612,11 @@ func TestVerifC09Gater(t *testing.T) {
 			}
 			c.Count("rpcs_throttled", throttled)
 			c.Count("rpcs_accepted_fully", full)
-			c.Sig(n, throttled > 0, full > 0, gp0.Quiet)
-			c.Nontrivial(throttled > 0)
+			c.Sig(n, throttled > 0, full > 0, gp0.Quiet, badDirect)
+			c.Nontrivial(throttled > 0 || badDirect)
+			if badDirect {
+				c.Count("direct_peer_rpcs_under_gater", full)
+			}
 			if c.Idx < 2 {
 				c.Sample(map[string]any{"mixed_rpcs": n, "throttled": throttled, "accepted_fully": full})
 			}
